@@ -1,91 +1,11 @@
-// Kani harnesses mounted inside src/live_events.rs (child module: sees private items).
+// Kani harnesses mounted inside src/live_events.rs.
 //
-// C02 / C08 / C10 / C11 at the level of the event pump. The real saphyr parser is driven over a
-// *concrete* tiny YAML text (its execution is then concrete for the symbolic executor); the
-// symbolic part is the pump's own state, which is havoc'ed right before the step of interest:
-// alias limits, replay counters, recorded anchor buffers' use, document boundaries, the shared
-// I/O error cell.
-use super::*;
-use crate::de::Events as _;
-
-fn any_limits() -> AliasLimits {
-    AliasLimits {
-        max_total_replayed_events: kani::any(),
-        max_replay_stack_depth: kani::any(),
-        max_alias_expansions_per_anchor: kani::any(),
-    }
-}
-
-fn stub_no_recursion(_id: usize) -> bool {
-    false
-}
-
-fn scalar_text<'a>(e: &'a Ev<'_>) -> Option<&'a str> {
-    match e {
-        Ev::Scalar { value, .. } => Some(value.as_ref()),
-        _ => None,
-    }
-}
-
-/// kind code of an event: 0 scalar, 1 seq start, 2 seq end, 3 map start, 4 map end, 5 taken
-fn kind(e: &Ev<'_>) -> u8 {
-    match e {
-        Ev::Scalar { .. } => 0,
-        Ev::SeqStart { .. } => 1,
-        Ev::SeqEnd { .. } => 2,
-        Ev::MapStart { .. } => 3,
-        Ev::MapEnd { .. } => 4,
-        Ev::Taken { .. } => 5,
-    }
-}
-
-// ------------------------------------------------------------------------------------------
-// Probe / C02+C08: `- &a x` / `- *a` : the alias delivers a copy of the anchored scalar, iff the
-// three alias limits admit one expansion of one event at nesting 1.
-// ------------------------------------------------------------------------------------------
-#[kani::proof]
-#[kani::unwind(40)]
-#[kani::stub(crate::anchor_store::recursive_anchor_in_progress, stub_no_recursion)]
-fn c02_alias_scalar_copy() {
-    let limits = any_limits();
-    let mut le = LiveEvents::from_str("- &a x\n- *a\n", None, None, None, limits, false);
-    // [ SeqStart, Scalar x (&a) ] are delivered from the raw stream
-    let e1 = le.next();
-    assert!(matches!(&e1, Ok(Some(ev)) if kind(ev) == 1));
-    let e2 = le.next();
-    assert!(matches!(&e2, Ok(Some(ev)) if scalar_text(ev) == Some("x")));
-    // havoc the replay accounting: any history of earlier replays in this document
-    let total0: usize = kani::any();
-    let exp0: usize = kani::any();
-    kani::assume(total0 <= limits.max_total_replayed_events);
-    le.total_replayed_events = total0;
-    if le.per_anchor_expansions.len() < 2 {
-        le.per_anchor_expansions.resize(2, 0);
-    }
-    le.per_anchor_expansions[1] = exp0;
-    // the alias
-    let e3 = le.next();
-    let admit = exp0 < limits.max_alias_expansions_per_anchor
-        && limits.max_replay_stack_depth >= 1
-        && total0 < limits.max_total_replayed_events;
-    match &e3 {
-        Ok(Some(ev)) => {
-            assert!(admit, "alias expanded beyond a configured limit");
-            assert!(scalar_text(ev) == Some("x"), "alias does not equal a copy of its anchor");
-            assert!(le.total_replayed_events == total0 + 1, "replayed event not counted");
-            kani::cover!(true, "alias expanded");
-        }
-        Ok(None) => assert!(false, "alias vanished"),
-        Err(_) => {
-            assert!(!admit, "alias rejected although every limit admits it");
-            kani::cover!(true, "alias rejected by a limit");
-        }
-    }
-    std::mem::forget(e1);
-    std::mem::forget(e2);
-    std::mem::forget(e3);
-    std::mem::forget(le);
-}
+// The event pump (C02 / C08 / C11) is NOT claimed by this machinery: see DESIGN.md §9.4. The
+// single-step harnesses that were written for it are kept in /verif/harness/attic/
+// h_live_events_pump_steps.rs together with the measurements that led to withdrawing them
+// (every one of them ran out of 16-28 GB or did not finish in 30 min: `Error`'s drop glue, which
+// contains `std::io::Error` -> `Box<dyn Error>` recursion, is unfolded at every `?`, and
+// `SmallVec<[Ev; 8]>` of 100-byte enum values makes each `push(ev.clone())` an array-theory blow-up).
 
 // concrete-playback slot: bin/check writes the solver counterexample here as a unit test for native replay
 include!("/verif/.build/playback/live_events_pb.rs");
